@@ -6,10 +6,12 @@ package main
 
 import (
 	"bufio"
+	"bytes"
 	"encoding/json"
 	"flag"
 	"fmt"
 	"io"
+	"net"
 	"net/http"
 	"os"
 	"os/exec"
@@ -19,6 +21,7 @@ import (
 	"strconv"
 	"strings"
 	"sync"
+	"sync/atomic"
 	"syscall"
 	"time"
 
@@ -187,13 +190,18 @@ type viewCell struct {
 	starts   int
 }
 
+var viewCellN, stuckViews int64
+
 func newViewCell(bin, timeout string) (*viewCell, error) {
 	c, err := newCell()
 	if err != nil {
 		return nil, err
 	}
+	// every other cell calls topic t3 "t3#ephemeral" and channel c2 "c2#ephemeral" on the wire (upstream answers, upstream
+	// queries, nsqadmin's own routes); the model and the comparison go on speaking of t3 and c2
+	c.eph = atomic.AddInt64(&viewCellN, 1)%2 == 0
 	return &viewCell{cell: c, bin: bin, children: map[string]*child{}, timeout: timeout,
-		client: &http.Client{Timeout: 120 * time.Second, Transport: &http.Transport{DisableKeepAlives: true}}}, nil
+		client: &http.Client{Timeout: 30 * time.Second, Transport: &http.Transport{DisableKeepAlives: true}}}, nil
 }
 
 func (vc *viewCell) Close() {
@@ -246,11 +254,24 @@ type obsView struct {
 
 // fetch returns the observed view; crashed=true when the child died while (or right after) answering
 func (vc *viewCell) fetch(ch *child, path string) (code int, body []byte, crashed bool, err error) {
+	if vc.cell.eph && strings.HasPrefix(path, "/api/topics/") {
+		segs := strings.Split(strings.TrimPrefix(path, "/api/topics/"), "/")
+		for i, sg := range segs {
+			if (i == 0 && sg == "t3") || (i == 1 && sg == "c2") {
+				segs[i] = sg + "%23ephemeral"
+			}
+		}
+		path = "/api/topics/" + strings.Join(segs, "/")
+	}
 	resp, e := vc.client.Get(fmt.Sprintf("http://127.0.0.1:%d%s", ch.port, path))
 	if e == nil {
 		body, _ = io.ReadAll(resp.Body)
 		resp.Body.Close()
 		code = resp.StatusCode
+		if vc.cell.eph {
+			body = bytes.ReplaceAll(body, []byte(`"t3#ephemeral"`), []byte(`"t3"`))
+			body = bytes.ReplaceAll(body, []byte(`"c2#ephemeral"`), []byte(`"c2"`))
+		}
 	}
 	// a panic in a fan-out goroutine kills the process shortly after (or instead of) the answer
 	wait := 30 * time.Millisecond
@@ -323,7 +344,7 @@ func e2eOf(v interface{}) jmap {
 }
 
 func chanFields(c jmap) jmap {
-	return jmap{"e2e": e2eOf(c["e2e_processing_latency"]),"depth": pairOf(c["depth"]), "backend_depth": pairOf(c["backend_depth"]), "memory_depth": pairOf(c["memory_depth"]),
+	return jmap{"e2e": e2eOf(c["e2e_processing_latency"]), "depth": pairOf(c["depth"]), "backend_depth": pairOf(c["backend_depth"]), "memory_depth": pairOf(c["memory_depth"]),
 		"in_flight_count": pairOf(c["in_flight_count"]), "deferred_count": pairOf(c["deferred_count"]),
 		"requeue_count": pairOf(c["requeue_count"]), "timeout_count": pairOf(c["timeout_count"]),
 		"message_count": pairOf(c["message_count"]), "client_count": asInt(c["client_count"]), "paused": asBool(c["paused"])}
@@ -471,6 +492,9 @@ func roundTrip(v interface{}) interface{} {
 
 // compareView: "" when the observed view is the predicted one
 func compareView(kind string, pred ViewPred, obs *obsView) string {
+	if obs.St == -1 {
+		return obs.Body // no answer at all
+	}
 	if pred.St == 0 {
 		return "" // only liveness is decided for this view
 	}
@@ -615,6 +639,12 @@ func (vc *viewCell) one(cs *ViewCase, rq viewReq) (*obsView, error) {
 		return &obsView{St: code, Crash: site + " -- " + msg}, nil
 	}
 	if err != nil {
+		if ne, ok := err.(net.Error); ok && ne.Timeout() {
+			// the harness gives nsqadmin 30 s; nsqadmin gives every upstream request its --http-client-request-timeout
+			// (1 s here) and queries them in parallel: no answer at all is an observation, not an accident
+			atomic.AddInt64(&stuckViews, 1)
+			return &obsView{St: -1, Body: fmt.Sprintf("nsqadmin did not answer GET %s within 30 s (its upstream request timeout is %s)", rq.path, vc.timeout)}, nil
+		}
 		return nil, fmt.Errorf("GET %s: %v (nsqadmin log: %s)", rq.path, err, tail(ch.log.String(), 500))
 	}
 	o := &obsView{St: code}
@@ -729,7 +759,8 @@ func viewRun(args []string) int {
 			defer func() { mu.Lock(); rep.Restarts += vc.starts; mu.Unlock() }()
 			for {
 				mu.Lock()
-				if next >= len(cases) || firstErr != nil {
+				if next >= len(cases) || firstErr != nil || atomic.LoadInt64(&stuckViews) >= 9 {
+					// (a daemon that has stopped answering views three times over -- each confirmed twice -- is not asked further)
 					mu.Unlock()
 					return
 				}
@@ -778,7 +809,7 @@ func viewRun(args []string) int {
 						}
 						if confirmed {
 							kind := "view"
-							if isSlow(cs) {
+							if isSlow(cs) && obs.St != -1 {
 								kind = "view-deadline" // depends on nsqadmin's upstream timeout: never a violation by itself
 							}
 							f = &ViewFinding{Kind: kind, Key: kind + ":" + rq.kind + ":" + cs.Cl.Mode + ":" + fc, View: rq.key, Path: rq.path,
